@@ -4,11 +4,13 @@ package signxap
 
 import (
 	"bytes"
+	"context"
 	"crypto"
 	"crypto/sha256"
 	"errors"
 
 	"github.com/sassoftware/relic/v8/lib/authenticode"
+	"github.com/sassoftware/relic/v8/lib/certloader"
 	"github.com/sassoftware/relic/v8/lib/pkcs7"
 	"github.com/sassoftware/relic/v8/lib/pkcs9"
 	"github.com/sassoftware/relic/v8/lib/x509tools"
@@ -115,3 +117,50 @@ func VH_C02_XapVerifyComparesDigest() {
 	}
 	vhReach("checked") // vh:require checked
 }
+
+// H01.xap: sign, then verify, then sign again and verify again - with the
+// Authenticode/CMS construction stubbed on both sides (sign: a blob of
+// symbolic length is returned; verify: the stub vouches for the digest the
+// signer was given). DigestXapTar -> XapDigest.Sign -> patch applied ->
+// signxap.Verify with digest checking: accepted after the first and after the
+// second round, the second signature replaces the first (file length follows
+// the new blob), and the zip part is byte-identical throughout.
+func VH_C01_XapSignedVerifies() {
+	// vh:stubbed
+	vhMaxLen(8192)
+	vhLoopBound(1100)
+	zipFile, dirLoc := vhMiniZip([]byte{0xca, 0xfe})
+	var signedOver []byte
+	blobs := [][]byte{vhBytes("first-signature", vhConcretize(vhInt("first-signature-bytes", 1, 3), 4)), vhBytes("second-signature", vhConcretize(vhInt("second-signature-bytes", 1, 3), 4))}
+	round := 0
+	vhStub("github.com/sassoftware/relic/v8/lib/authenticode.SignSip", func(ctx context.Context, imprint []byte, hash crypto.Hash, sipInfo authenticode.SpcSipInfo, cert *certloader.Certificate, params *authenticode.OpusParams) (*pkcs9.TimestampedSignature, error) {
+		signedOver = imprint
+		ts := &pkcs9.TimestampedSignature{}
+		ts.Raw = blobs[round]
+		return ts, nil
+	})
+	bad := false
+	file := zipFile
+	for round = 0; round < 2; round++ {
+		d, err := DigestXapTar(vhXapTar(file, dirLoc), crypto.SHA256, false)
+		vhAssert(err == nil, "package-digests")
+		patch, _, err := d.Sign(context.Background(), nil, nil)
+		vhAssert(err == nil, "package-signs")
+		var out []byte
+		pos := int64(0)
+		for i, h := range patch.Patches {
+			out = append(out, file[pos:h.Offset]...)
+			out = append(out, patch.Blobs[i]...)
+			pos = h.Offset + int64(h.OldSize)
+		}
+		file = append(out, file[pos:]...)
+		vhAssert(len(file) == len(zipFile)+8+len(blobs[round])+10, "one-signature-frame-after-the-zip")
+		vhAssert(bytes.Equal(file[:len(zipFile)], zipFile), "zip-part-untouched")
+		vhXapCms(signedOver, &bad)
+		sig, err := Verify(bytes.NewReader(file), int64(len(file)), false)
+		vhAssert(err == nil && sig != nil, "own-signature-verifies-with-digest-checking")
+	}
+	vhReach("twice-signed") // vh:require twice-signed
+}
+
+func VH_C08_XapResignReplaces() { VH_C01_XapSignedVerifies() }
